@@ -1,6 +1,7 @@
 package p13
 
 import (
+	"rare/cmd/helpers"
 	"fmt"
 	"regexp"
 	"sort"
@@ -161,6 +162,22 @@ func runSet(c *run.Ctx, cs *Case) bool {
 	if !sameSeq(refs[desc[0]], reversed(refs[asc[0]])) {
 		fail("rev", fmt.Sprintf("--sort %s is not the exact reversal of --sort %s for %s:\n %s -> %s\n %s -> %s", desc[0], asc[0], showItems(canon, mode == "value"), asc[0], showSeq(refs[asc[0]]), desc[0], showSeq(refs[desc[0]])))
 		return false
+	}
+	// other capitalisations of a mode name or modifier: where the command line accepts one, it selects the same mode
+	// (a name that is rejected selects nothing and is not judged)
+	for _, spec := range []string{asc[0], desc[0], desc[1]} {
+		for _, v := range []string{strings.ToUpper(spec[:1]) + spec[1:], strings.ToUpper(spec)} {
+			s, err := helpers.BuildSorter(v)
+			if err != nil || v == spec {
+				c.Count("capitalised_spellings_rejected", 1)
+				continue
+			}
+			c.Count("capitalised_spellings_compared", 1)
+			if got := sortWith(c, s, canon, false); !sameSeq(got, refs[spec]) {
+				fail("spelling", fmt.Sprintf("--sort %s is accepted but orders %s as %s, while --sort %s gives %s", v, showItems(canon, mode == "value"), showSeq(got), spec, showSeq(refs[spec])))
+				return false
+			}
+		}
 	}
 	// semantic reference orders on the ascending sequence
 	if msg := semantic(c, mode, canon, refs[asc[0]]); msg != "" {
